@@ -4,6 +4,7 @@
         -> `E <TypeError|ValueError>:<kind>:<arg> | W <warnings>`  or  `OK <conv desc> <conv desc> <conv desc> | W <warnings>`
    output <hasInfNan> <outOfRange> -> `W <warnings>`
    time <deb> <rwMode> <yearMode> nO nH nF tO tH tF -> `ok` / `error ValueError`
+   timep <deb> <rwMode> <yearMode> nO nH nF tO tH tF -> the same with partial time information (`-` = array not given)
    consumes <deb> <rwMode> <yearMode> -> three 0/1 flags
 -/
 import IbicusModel.Model.Proto
@@ -64,6 +65,12 @@ def step (line : String) : String :=
       match Deb.ofClassName d, bool? r, bool? y, parseInt? nO, parseInt? nH, parseInt? nF, parseInt? tO, parseInt? tH, parseInt? tF with
       | some d, some r, some y, some nO, some nH, some nF, some tO, some tH, some tF =>
           (match timeOutcome d ⟨r, y⟩ nO nH nF tO tH tF with | .ok _ => "ok" | .error e => "error " ++ e)
+      | _, _, _, _, _, _, _, _, _ => "bad-op"
+  | ["timep", d, r, y, nO, nH, nF, tO, tH, tF] =>
+      let opt? (s : String) : Option (Option Int) := if s = "-" then some none else (parseInt? s).map some
+      match Deb.ofClassName d, bool? r, bool? y, parseInt? nO, parseInt? nH, parseInt? nF, opt? tO, opt? tH, opt? tF with
+      | some d, some r, some y, some nO, some nH, some nF, some tO, some tH, some tF =>
+          (match timeOutcomeP d ⟨r, y⟩ nO nH nF tO tH tF with | .ok _ => "ok" | .error e => "error " ++ e)
       | _, _, _, _, _, _, _, _, _ => "bad-op"
   | ["consumes", d, r, y] => match Deb.ofClassName d, bool? r, bool? y with
       | some d, some r, some y => let (a, b, c) := timeChecked d ⟨r, y⟩; showB a ++ showB b ++ showB c
